@@ -10,6 +10,7 @@ structure (canonical labels by first occurrence) and every observable value.
 -/
 import IrisVerif.Model.Heap
 import IrisVerif.Model.Portable
+import IrisVerif.Model.C20State
 import IrisVerif.Driver.Util
 
 open IrisVerif.Heap IrisVerif.Driver
@@ -252,6 +253,12 @@ def pequation? (s : String) : Option Equation :=
     pure { kind := k, dynamic := d, steady := st }
   | _ => none
 
+/-- an optional boolean keyword: `n` absent / None, `T`, `F` -/
+def ob? : String → Option (Option Bool)
+  | "n" => some none | "T" => some (some true) | "F" => some (some false) | _ => none
+
+def showFlags (f : Flags) : String := showBool f.linear ++ showBool f.flat ++ showBool f.deterministic
+
 def portLine (ws : List String) : String :=
   match ws with
   | ["q", qs] =>
@@ -266,13 +273,29 @@ def portLine (ws : List String) : String :=
       "@".intercalate ((IrisVerif.Portable.encodeEs es).map (fun p =>
         p.code ++ ";" ++ p.dynamic ++ ";" ++ p.steady.getD "None"))
     | none => "bad-op"
-  | ["rt", fl, tol, qs, es, vs] =>
+  | ["fk", a, b, c, e, f, g] =>       -- Flags.from_kwargs(linear, is_linear, flat, is_flat, deterministic, is_deterministic)
+    match ob? a, ob? b, ob? c, ob? e, ob? f, ob? g with
+    | some a, some b, some c, some e, some f, some g =>
+      showFlags (IrisVerif.C20State.fromKwargs ⟨a, b, c, e, f, g⟩)
+    | _, _, _, _, _, _ => "bad-op"
+  | ["fu", fl, a, c, f] =>            -- Flags.update_from_kwargs(model flags; linear, flat, deterministic)
+    match flags? fl, ob? a, ob? c, ob? f with
+    | some fl, some a, some c, some f =>
+      showFlags (IrisVerif.C20State.updateFromKwargs fl { linear := a, flat := c, deterministic := f })
+    | _, _, _, _ => "bad-op"
+  | ["fp", fl] =>                     -- Flags.from_portable(Flags.to_portable(flags))
+    match flags? fl with
+    | some fl => showFlags (IrisVerif.C20State.flagsFromPortable (IrisVerif.C20State.flagsToPortable fl))
+    | none => "bad-op"
+  | [which, fl, tol, qs, es, vs] =>
+    if which ≠ "rt" ∧ which ≠ "rtj" then "bad-op" else
     match flags? fl, parseRat? tol, (qs.splitOn ",").mapM pquantity?, (es.splitOn "@").mapM pequation?,
           (vs.splitOn "@").mapM result? with
     | some fl, some tol, some qs, some es, some vs =>
       let d : InvData := { desc := "", flags := fl, quantities := qs, equations := es, tolEig := tol, tolEq := tol,
                            defaultStd := if fl.linear then 1 else 1 / 100 }
-      match IrisVerif.Portable.fromPortable (fun _ e => e) tol (IrisVerif.Portable.toPortable d vs) with
+      match IrisVerif.Portable.fromPortableG (if which = "rtj" then IrisVerif.C20State.importVariantJson else IrisVerif.Portable.importVariant)
+          (fun _ e => e) tol (IrisVerif.Portable.toPortable d vs) with
       | .ok (d', vs') =>
         "ok wf=" ++ showBool (IrisVerif.Portable.portableWFb d vs) ++ " " ++ ",".intercalate (d'.quantities.map (fun q => q.name ++ "~" ++ showKind q.kind ++ "~" ++ showLogly q.logly))
           ++ " " ++ "@".intercalate (d'.equations.map (fun e => showEKind e.kind ++ ";" ++ e.dynamic ++ ";" ++ e.steady))
@@ -284,9 +307,38 @@ def portLine (ws : List String) : String :=
     | _, _, _, _, _ => "bad-op"
   | _ => "bad-op"
 
+/-! ### memo lines: `memo <version0> <op> <op> ...` with ops `e:i:f` (expand), `c:i` (copy), `r:i:v` (re-solve) -/
+
+def mop? (s : String) : Option IrisVerif.C20State.MOp :=
+  match s.splitOn ":" with
+  | ["e", i, f] => do pure (.expand (← i.toNat?) (← f.toNat?))
+  | ["c", i] => do pure (.copy (← i.toNat?))
+  | ["r", i, v] => do pure (.resolve (← i.toNat?) (← v.toNat?))
+  | _ => none
+
+def showStamps (l : List (Nat × Nat)) : String := ",".intercalate (l.map (fun p => toString p.1 ++ "." ++ toString p.2))
+
+def finalObjs : List IrisVerif.C20State.SolObj → List IrisVerif.C20State.MOp → List IrisVerif.C20State.SolObj
+  | objs, [] => objs
+  | objs, op :: rest => finalObjs (IrisVerif.C20State.mstep objs op).1 rest
+
+def memoLine (ws : List String) : String :=
+  match ws with
+  | v0 :: ops =>
+    match v0.toNat?, ops.mapM mop? with
+    | some v0, some ops =>
+      let start : List IrisVerif.C20State.SolObj := [⟨v0, []⟩]
+      let answers := (IrisVerif.C20State.mrun start ops).map (fun e =>
+        toString e.1 ++ ":" ++ toString e.2.1 ++ "=" ++ showStamps e.2.2.1)
+      " ".intercalate answers ++ " | " ++ " ".intercalate ((finalObjs start ops).map (fun o =>
+        toString o.version ++ "/" ++ toString o.memo.length))
+    | _, _ => "bad-op"
+  | _ => "bad-op"
+
 def step (line : String) : String :=
   match words line with
   | "case" :: rest => caseLine rest
+  | "memo" :: rest => memoLine rest
   | "port" :: rest => portLine rest
   | _ => "bad-op"
 
